@@ -138,6 +138,60 @@ def run_requests(lines, workdir, shards=NPROC):
 
 
 # ---------------------------------------------------------------- proofs
+def sources_key():
+    """hash of every .v file and of _CoqProject: the output of coqc on a property file is a
+    function of these (make has just rebuilt every .vo from them)"""
+    import hashlib
+    h = hashlib.sha256()
+    paths = [os.path.join(COQ, "_CoqProject")]
+    for root, _, files in os.walk(os.path.join(COQ, "theories")):
+        paths += [os.path.join(root, f) for f in files if f.endswith(".v")]
+    for pth in sorted(paths):
+        h.update(pth.encode())
+        h.update(open(pth, "rb").read())
+    return h.hexdigest()[:24]
+
+
+def coqc_property_file(base):
+    """(rc, output) of  coqc theories/Properties/<base>  (theorem statements re-checked, Print
+    Assumptions printed).  The output is kept under .build/ keyed by the hash of all sources, so
+    that several checks of one run do not recompile the same file; any change of any .v file
+    changes the key."""
+    cdir = os.path.join(BUILD, "coqc-out")
+    os.makedirs(cdir, exist_ok=True)
+    cf = os.path.join(cdir, "%s-%s.out" % (base, sources_key()))
+    if os.path.exists(cf):
+        return 0, open(cf).read()
+    cmd = "coqc -q -Q theories HCTL theories/Properties/%s" % base
+    rc, out = sh("timeout 1500 " + cmd, cwd=COQ, timeout=1600)
+    if rc == 0:
+        tmp = cf + ".%d" % os.getpid()
+        with open(tmp, "w") as f:
+            f.write(out)
+        os.replace(tmp, cf)
+        for old in os.listdir(cdir):          # outputs of earlier source states
+            if old.startswith(base + "-") and os.path.join(cdir, old) != cf and old.endswith(".out"):
+                try:
+                    os.remove(os.path.join(cdir, old))
+                except OSError:
+                    pass
+    return rc, out
+
+
+def warm_proofs():
+    """after setup: compile every property file once (in parallel) so that the checks find the output"""
+    rc, out = build_model()
+    if rc != 0:
+        print(out[-2000:])
+        return rc
+    bases = sorted(f for f in os.listdir(os.path.join(COQ, "theories", "Properties")) if f.endswith(".v"))
+    with ThreadPoolExecutor(max_workers=NPROC) as ex:
+        res = list(ex.map(coqc_property_file, bases))
+    bad = [b for b, (rc, _) in zip(bases, res) if rc != 0]
+    print("[proofs] %d property files compiled%s" % (len(bases), (", FAILED: " + ", ".join(bad)) if bad else ""))
+    return 1 if bad else 0
+
+
 def check_proofs(prop, tier="quick"):
     """Re-check Properties/<prop>.v with coqc (its dependencies were built by make), collect
     the theorems, their Print Assumptions output, and grep the development for forbidden words.
@@ -157,9 +211,7 @@ def check_proofs(prop, tier="quick"):
                 m = FORBIDDEN.search(txt_nc)
                 if m:
                     info["problems"].append("forbidden construct %r in %s" % (m.group(0), fn))
-    import glob
-    files = sorted(f for f in glob.glob(os.path.join(COQ, "theories", "Properties", prop + "*.v"))
-                   if re.fullmatch(re.escape(prop) + r"[a-z]?\.v", os.path.basename(f)))
+    files = theorem_files(prop)
     if not files:
         # no theorem file yet for this property: nothing to discharge (evidence level drops)
         info["ok"] = not info["problems"]
@@ -171,13 +223,14 @@ def check_proofs(prop, tier="quick"):
         base = os.path.basename(pf)
         cmd = "coqc -q -Q theories HCTL theories/Properties/%s" % base
         cmds.append(cmd)
-        rc, out = sh("timeout 1500 " + cmd, cwd=COQ, timeout=1600)
+        rc, out = coqc_property_file(base)
         if rc != 0:
             info["problems"].append("coqc failed on Properties/%s: %s" % (base, out[-1500:]))
             continue
         src = open(pf).read()
         src_nc = re.sub(r"\(\*.*?\*\)", "", src, flags=re.S)
-        theorems = re.findall(r"^\s*(?:Theorem|Corollary)\s+(\w+)", src_nc, flags=re.M)
+        all_in_file = re.findall(r"^\s*(?:Theorem|Corollary)\s+(\w+)", src_nc, flags=re.M)
+        theorems = theorems_of(pf, prop)
         theorems_all += theorems
         # Print Assumptions blocks: "Closed under the global context" or "Axioms:\n name : type ..."
         closed = out.count("Closed under the global context")
@@ -190,8 +243,8 @@ def check_proofs(prop, tier="quick"):
                     ax_names.append(m.group(1))
         info["axioms"] = sorted(set(info["axioms"]) | set(ax_names))
         n_print = len(re.findall(r"^\s*Print Assumptions", src_nc, flags=re.M))
-        if n_print < len(theorems):
-            info["problems"].append("%s: %d theorems but only %d Print Assumptions" % (base, len(theorems), n_print))
+        if n_print < len(all_in_file):
+            info["problems"].append("%s: %d theorems but only %d Print Assumptions" % (base, len(all_in_file), n_print))
         if closed + len(axioms) < n_print:
             info["problems"].append("%s: Print Assumptions output incomplete" % base)
     info["cmd"] = "cd /verif/coq && make -j16 && " + " && ".join(cmds)
@@ -214,10 +267,26 @@ def check_proofs(prop, tier="quick"):
 
 
 # ---------------------------------------------------------------- evidence / replays
+SHARED_THEOREM_FILES = ["Cached.v"]     # theorems named <file stem>_<prop>_...: counted for <prop>
+
+
 def theorem_files(prop):
     import glob
-    return sorted(f for f in glob.glob(os.path.join(COQ, "theories", "Properties", prop + "*.v"))
-                  if re.fullmatch(re.escape(prop) + r"[a-z]?\.v", os.path.basename(f)))
+    fs = sorted(f for f in glob.glob(os.path.join(COQ, "theories", "Properties", prop + "*.v"))
+                if re.fullmatch(re.escape(prop) + r"[a-z]?\.v", os.path.basename(f)))
+    for sh_ in SHARED_THEOREM_FILES:
+        pth = os.path.join(COQ, "theories", "Properties", sh_)
+        if os.path.exists(pth) and re.search(r"^\s*(?:Theorem|Corollary)\s+%s_%s_" % (sh_[:-2], prop), open(pth).read(), flags=re.M):
+            fs.append(pth)
+    return fs
+
+
+def theorems_of(pf, prop):
+    src_nc = re.sub(r"\(\*.*?\*\)", "", open(pf).read(), flags=re.S)
+    names = re.findall(r"^\s*(?:Theorem|Corollary)\s+(\w+)", src_nc, flags=re.M)
+    if os.path.basename(pf) in SHARED_THEOREM_FILES:
+        names = [n for n in names if n.startswith("%s_%s_" % (os.path.basename(pf)[:-2], prop))]
+    return names
 
 
 def has_theorem_file(prop):
@@ -225,11 +294,7 @@ def has_theorem_file(prop):
 
 
 def count_theorems(prop):
-    n = 0
-    for pf in theorem_files(prop):
-        src_nc = re.sub(r"\(\*.*?\*\)", "", open(pf).read(), flags=re.S)
-        n += len(re.findall(r"^\s*(?:Theorem|Corollary)\s+(\w+)", src_nc, flags=re.M))
-    return n
+    return sum(len(theorems_of(pf, prop)) for pf in theorem_files(prop))
 
 
 def write_evidence(prop, tier, seed, wall, coverage, violations, assumptions, level=None, official=True):
@@ -257,3 +322,9 @@ def write_replay(prop, name, payload):
     with open(path, "w") as f:
         json.dump(payload, f, indent=1)
     return path
+
+
+if __name__ == "__main__":
+    import sys
+    if len(sys.argv) > 1 and sys.argv[1] == "warm":
+        sys.exit(warm_proofs())
